@@ -37,6 +37,7 @@ fn main() {
         "router" => util::run_cases(inp, outp, router::run),
         "body" => util::run_cases(inp, outp, body::run),
         "tok" => util::run_cases(inp, outp, tok::run),
+        "toklex" => util::run_cases(inp, outp, tok::run_lex),
         "pipe" => util::run_cases(inp, outp, pipe::run_case),
         "url" => util::run_cases(inp, outp, url::run),
         "marker" => util::run_cases(inp, outp, marker::run),
